@@ -239,6 +239,129 @@ def _instantiate(graw, t):
     return out
 
 
+
+def _split_generic_args(ty):
+    """'std::result::Result<A<B, C>, D>' -> ['A<B, C>', 'D']"""
+    i = ty.find("<")
+    if i < 0 or not ty.endswith(">"):
+        return []
+    inner = ty[i + 1:-1]
+    out, depth, cur = [], 0, ""
+    for ch in inner:
+        if ch in "<([":
+            depth += 1
+        elif ch in ">)]":
+            depth -= 1
+        if ch == "," and depth == 0:
+            out.append(cur.strip())
+            cur = ""
+        else:
+            cur += ch
+    if cur.strip():
+        out.append(cur.strip())
+    return out
+
+
+# combinator -> (scrutinee kind, {variant index: action}); actions: ("wrap", variant name) wrap the payload unchanged, ("call-wrap", variant) call the closure on the
+# payload and wrap its result, ("call", None) the closure's result is the result, ("payload", None) the payload is the result, ("unit-call-wrap", variant) call the closure
+# without argument and wrap, ("unit-call", None), ("none", None) produce None
+_COMBINATORS = {
+    "std::result::Result::map":            ("result", {0: ("call-wrap", "Ok"), 1: ("wrap", "Err")}),
+    "std::result::Result::map_err":        ("result", {0: ("wrap", "Ok"), 1: ("call-wrap", "Err")}),
+    "std::result::Result::and_then":       ("result", {0: ("call", None), 1: ("wrap", "Err")}),
+    "std::result::Result::unwrap_or_else": ("result", {0: ("payload", None), 1: ("call", None)}),
+    "std::result::Result::or_else":        ("result", {0: ("wrap", "Ok"), 1: ("call", None)}),
+    "std::option::Option::map":            ("option", {0: ("none", None), 1: ("call-wrap", "Some")}),
+    "std::option::Option::and_then":       ("option", {0: ("none", None), 1: ("call", None)}),
+    "std::option::Option::unwrap_or_else": ("option", {0: ("unit-call", None), 1: ("payload", None)}),
+    "std::option::Option::ok_or_else":     ("option", {0: ("unit-call-wrap", "Err"), 1: ("wrap", "Ok")}),
+    "std::option::Option::or_else":        ("option", {0: ("unit-call", None), 1: ("wrap", "Some")}),
+}
+_VARIANTS = {"result": ("std::result::Result", {0: "Ok", 1: "Err"}), "option": ("std::option::Option", {0: "None", 1: "Some"})}
+
+
+def _lower_combinator(F, f, raw, blk, t):
+    """`x.map(c)`, `x.map_err(c)`, `x.and_then(c)`, `x.unwrap_or_else(c)`, `o.ok_or_else(c)` ... with c a closure of this crate that is not in the
+    inventory  ->  the explicit two-armed match the combinator stands for, calling the closure where it runs.  Returns True when rewritten."""
+    name = strip_generics(t.get("callee") or "")
+    spec = _COMBINATORS.get(name)
+    if spec is None or len(t["args"]) != 2 or t["to"] < 0 or t["dest"].get("p"):
+        return False
+    g = _closure_of_local(F, f, t["args"][1])
+    if g is None or g.path in inventory() or strip_generics(g.path) in inventory():
+        return False
+    x = t["args"][0]
+    if x["k"] == "c" or x["pl"].get("p"):
+        return False
+    kind, actions = spec
+    blocks, locals_ = raw["blocks"], raw["locals"]
+    src_ty = f.local_ty(x["pl"]["l"])
+    dst_ty = f.local_ty(t["dest"]["l"])
+    sargs = _split_generic_args(src_ty)
+    dargs = _split_generic_args(dst_ty)
+    enum_adt, vnames = _VARIANTS[kind]
+    ln = t.get("ln")
+    src = blk.get("src")
+
+    def new_local(ty):
+        locals_.append({"i": len(locals_), "t": ty, "adt": ""})
+        return len(locals_) - 1
+
+    def new_block(st, term):
+        blocks.append({"b": len(blocks), "cleanup": False, "src": src, "st": st, "term": term})
+        return len(blocks) - 1
+    scrut = new_local(src_ty)
+    dsc = new_local("isize")
+    exit_to = t["to"]
+    arm_blocks = {}
+    for vi, (act, wrapv) in actions.items():
+        has_payload = not (kind == "option" and vi == 0)
+        pty = (sargs[vi] if kind == "result" and len(sargs) == 2 else (sargs[0] if sargs else "?")) if has_payload else "()"
+        st = []
+        pv = None
+        if has_payload:
+            pv = new_local(pty)
+            st.append({"s": "assign", "lhs": {"l": pv}, "rv": {"r": "use", "a": [{"k": "mv", "pl": {"l": scrut, "p": [{"v": vi, "n": vnames[vi]}, {"f": 0, "n": "0", "t": pty}]}}]}, "ln": ln, "x": False})
+        dest = copy.deepcopy(t["dest"])
+
+        def wrap_stmt(val_local, variant):
+            dadt = "std::result::Result" if variant in ("Ok", "Err") else "std::option::Option"
+            dvi = {"Ok": 0, "Err": 1, "None": 0, "Some": 1}[variant]
+            return {"s": "assign", "lhs": dest, "rv": {"r": "agg", "kind": {"adt": dadt, "variant": variant, "vi": dvi}, "a": [{"k": "mv", "pl": {"l": val_local}}]}, "ln": ln, "x": False}
+        if act == "wrap":
+            st.append(wrap_stmt(pv, wrapv))
+            arm_blocks[vi] = new_block(st, {"t": "goto", "to": exit_to, "ln": ln})
+        elif act == "payload":
+            st.append({"s": "assign", "lhs": dest, "rv": {"r": "use", "a": [{"k": "mv", "pl": {"l": pv}}]}, "ln": ln, "x": False})
+            arm_blocks[vi] = new_block(st, {"t": "goto", "to": exit_to, "ln": ln})
+        elif act == "none":
+            st.append({"s": "assign", "lhs": dest, "rv": {"r": "agg", "kind": {"adt": "std::option::Option", "variant": "None", "vi": 0}, "a": []}, "ln": ln, "x": False})
+            arm_blocks[vi] = new_block(st, {"t": "goto", "to": exit_to, "ln": ln})
+        else:
+            unit_call = act.startswith("unit-")
+            res = new_local(g.local_ty(0))
+            if unit_call:
+                tup = new_local("()")
+                st.append({"s": "assign", "lhs": {"l": tup}, "rv": {"r": "agg", "kind": {"tuple": True}, "a": []}, "ln": ln, "x": False})
+            else:
+                tup = new_local("(%s,)" % pty)
+                st.append({"s": "assign", "lhs": {"l": tup}, "rv": {"r": "agg", "kind": {"tuple": True}, "a": [{"k": "mv", "pl": {"l": pv}}]}, "ln": ln, "x": False})
+            if act.endswith("wrap"):
+                after = new_block([wrap_stmt(res, wrapv)], {"t": "goto", "to": exit_to, "ln": ln})
+                call_dest = {"l": res}
+            else:
+                after = exit_to
+                call_dest = dest
+            arm_blocks[vi] = new_block(st, {"t": "call", "callee": "std::ops::FnOnce::call_once", "resolved": "std::ops::FnOnce::call_once", "foreign": False, "local": False, "krate": "core",
+                                            "resolved_local": False, "generics": [], "args": [copy.deepcopy(t["args"][1]), {"k": "mv", "pl": {"l": tup}}], "dest": call_dest, "to": after,
+                                            "unwind": "Continue", "ln": ln, "x": False, "lowered": name})
+    unr = new_block([], {"t": "unreachable"})
+    blk["st"] = blk["st"] + [{"s": "assign", "lhs": {"l": scrut}, "rv": {"r": "use", "a": [copy.deepcopy(x)]}, "ln": ln, "x": False},
+                             {"s": "assign", "lhs": {"l": dsc}, "rv": {"r": "discr", "pl": {"l": scrut}, "adt": enum_adt}, "ln": ln, "x": False}]
+    blk["term"] = {"t": "switch", "on": {"k": "mv", "pl": {"l": dsc}}, "arms": [[0, arm_blocks[0]], [1, arm_blocks[1]]], "otherwise": unr, "ln": ln, "lowered": name}
+    return True
+
+
 def is_anchor(g):
     return any(strip_generics(callee_name(t)) in ANCHOR_SYSCALLS for _, t in g.calls(live_only=False))
 
@@ -386,6 +509,9 @@ def inline_function(F, f, cm, done, depth=0):
             continue
         if t.get("callee") and "for_each" in t["callee"] and _lower_for_each(F, Fn(raw, F), raw, blk, t):
             inlined.append("<lowered for_each>")
+            continue
+        if strip_generics(t.get("callee") or "") in _COMBINATORS and _lower_combinator(F, Fn(raw, F), raw, blk, t):
+            inlined.append("<lowered %s>" % strip_generics(t["callee"]).split("::")[-1])
             continue
         g = _callee_fn(F, t)
         mode = "call"
